@@ -234,15 +234,15 @@ func main() {
 	for _, n := range eng.order {
 		obls = append(obls, eng.obls[n])
 	}
-	workDir := filepath.Join(*verif, "work", *prop)
+	workDir := filepath.Join(*verif, "work", *prop+"."+*tier)
 	if *workFlag != "" {
 		workDir = *workFlag
 	}
 	os.RemoveAll(workDir)
-	timeout := 10
+	timeout := 20
 	all := false
 	if *tier == "thorough" {
-		timeout = 60
+		timeout = 90
 		all = true
 	}
 	dischargeAll(obls, workDir, timeout, all, seed, 16)
